@@ -7,7 +7,7 @@
 (* degenerate one (through vertices / edges, in a face plane, along an     *)
 (* edge, tangent, inside, endpoint on the boundary).                       *)
 (***************************************************************************)
-EXTENDS G3DBodies, G3DMeasure, TLC, Json
+EXTENDS G3DBodies, G3DMeasure, G3DAlg, TLC, Json
 CONSTANTS S, BODIES, KF, SEED, NSHARD, NXCHECK, GENK, NGEN
 VARIABLES ph, body, f, r      \* r: the exact intersection, computed once per case
 vars == <<ph, body, f, r>>
@@ -41,11 +41,12 @@ ProbesAgree == (ph = 3 /\ InShard(body, f, SEED, NXCHECK)) =>
 
 Flags == <<f.k, body.k, r.k,
               IF r.k = "Point" THEN PosClass(r.p, body) ELSE IF r.k = "Segment" THEN PosClass(HMid(r.a, r.b), body) ELSE "-">>
+\* L2: the library's handler for this pair, as written, gives the exact intersection and never reaches a "Bug" branch
+L2Refines == (ph = 3 /\ HasL2Body(f, body) /\ InShard(body, f, SEED + 3, NXCHECK)) => SameSet(L2Body(f, body), r)
 \* the exported helpers: the set of single-point hits of a segment on the faces and edges of a polyhedron / on the edges
 \* of a polygon (overlaps along a face or an edge contribute nothing), and the extreme pair of a collinear point list
-FacePolys(K) == { MkPolygon(fc.cyc, fc.n) : fc \in K.fs }
-EdgeSegs(cyc) == { MkSegment(cyc[i], cyc[IF i = Len(cyc) THEN 1 ELSE i + 1]) : i \in 1..Len(cyc) }
-BodyEdges(K) == IF K.k = "Polygon" THEN EdgeSegs(K.cyc) ELSE UNION { EdgeSegs(fc.cyc) : fc \in K.fs }
+FacePolys(K) == FacesOf(K)
+BodyEdges(K) == IF K.k = "Polygon" THEN PolyEdges(K) ELSE EdgesOf(K)
 PointHits(s, objs) == { Inter(s, o).p : o \in { o \in objs : Inter(s, o).k = "Point" } }
 Hits == IF f.k # "Segment" THEN {} ELSE IF body.k = "Polyhedron" THEN PointHits(f, FacePolys(body)) \cup PointHits(f, BodyEdges(body))
         ELSE PointHits(f, BodyEdges(body))
